@@ -241,6 +241,14 @@ def main():
             if sorted(p2.split()) != exp_e: pred(l, "edges after load %s, stored %s" % (sorted(p2.split()), exp_e))
             if "prefixes_accepted=0" not in p3: pred(l, "PlannerDataStorage::load accepted a truncated stream: " + p3)
             if "other=0" not in p3: pred(l, "PlannerDataStorage::load accepted an archive written for a different space")
+    # planner-data graphs with controls (control::PlannerData through control::PlannerDataStorage): states, tags, marks, controls, durations and
+    # weights of every edge compared after store / load; strict prefixes refused (the driver compares; the model does not cover controls)
+    cg = ["CGRAPH %d %d %d" % (rng.randint(1, 10 ** 6), nv, ne) for nv, ne in ([(1, 0), (2, 1), (5, 8), (12, 40), (30, 120)] if quick else [(1, 0), (2, 1), (5, 8), (12, 40), (30, 120)] * 20)]
+    rcg, ocg, ecg, scg = vf.sh([drv], input="\n".join(cg) + "\n", timeout=600); c.step("impl:control-planner-data", drv + " CGRAPH ...", scg, rcg == 0)
+    cgo = [x for x in ocg.split("\n") if x.startswith("cgraph ")]
+    for l, out in zip(cg, cgo + ["cgraph ? ? no observation"] * len(cg)):
+        if not out.endswith(" ok"): pred(l, "planner data with controls does not survive store / load: " + out)
+    c.cov["control_graphs_round_tripped"] = len(cgo)
     # the vertex that is both start and goal (known finding)
     kf = "SPACE R 1\nSTATE 0x1p+0\nGRAPH 1 | 5 | | 0 | 0\n"
     r3 = vf.sh([drv], input=kf, timeout=60)
@@ -255,7 +263,7 @@ def main():
                   "disagreements": ndiff, "predicate_failures": npred})
     c.cov["samples"] = il[:3]
     c.cov["trusted_base"] += ["extraction (ExtrOcamlBasic) + extract/codec_driver.ml; harness/codec_driver.cpp; boost.serialization's byte format is not modelled (the model frames archives as tokens; the implementation is truncated at every byte)"]
-    c.assumptions += ["wrapper state spaces and control-space planner data are not covered by this check", "doubles are copied verbatim (memcpy semantics)"]
+    c.assumptions += ["wrapper state spaces are not covered by this check; planner data with controls is compared by the driver itself (no model)", "doubles are copied verbatim (memcpy semantics)"]
     if first_pred:
         sp, l, msg = first_pred
         c.violation("implementation violates C09: " + msg, "# C09 replay: bin/check C09 --replay <this file>\n%s\n%s\n" % (sp or "", l))
